@@ -28,6 +28,11 @@ def run(prog, chk):
     C.destroy_once(prog, chk, "C05.i", tuple(C.NODE))
     # clear() must not leave a table/list pointer to a recycled slot: the slot is handed out again while the stale pointer still designates it
     C.clear_resets(prog, chk, "C05.j", tuple(C.NODE))
+    # a rotation that publishes its result into a copy of the slot cuts a live node out of the search tree: its address is still
+    # valid, but find() no longer leads to it (the rule of C01.n decides this clause of C05 as well)
+    from . import c01
+    from .server_common import Only
+    c01.slots_by_reference(prog, Only(chk, "C01.n", "C05.n"))
     # a node linked with a wrong back pointer is later unlinked wrongly: its slot is recycled while still reachable, two elements share an address
     C.link_idiom(prog, chk, "C05.k", tuple(C.NODE))
     C.self_assign_noop(prog, chk, "C05.l")
